@@ -6,6 +6,11 @@ CHECKS = {
         "note": "StubDatabase and DetLoop replace sqlite and the selector loop; at most 3 (quick) / 4 (thorough) element tokens per gather harness, so a counting bug needing >=5 arrivals is outside; key prefixes concrete; interleavings differ only in the first K choice points.",
         "technique": "symbolic execution of the real step coroutines (CrossHair + z3) on a deterministic asyncio loop with solver-chosen arrival positions and interleavings; native replay",
     },
+    "C03": {
+        "text": "Bounded symbolic check of the real Port classes: ALL histories of 4-7 put/get/terminate operations by 1-3 consumers (operation codes are solver variables; blocked gets and late subscribers included) deliver to every consumer exactly the put sequence in order; FilterTokenPort delivers exactly the admitted tokens (symbolic values and threshold) plus termination; InterWorkflowPort forwards the completing token (and RECOVERED termination) to the boundary port exactly when the symbolic boundary tag set is complete, adding a rule before/in the middle of/after the puts commutes, and self-bound rules never duplicate a local delivery.",
+        "note": "DetLoop replaces the selector loop; histories longer than the bound, >3 consumers, duplicate tags in boundary rules or puts are outside; for tokens put after a rule became complete only the commutation clause is asserted.",
+        "technique": "symbolic execution of the real port code (CrossHair + z3) with solver-owned operation histories; native replay",
+    },
     "C33": {
         "text": "Bounded symbolic check: compare_tags equals the numeric (depth, components) order, is antisymmetric and transitive, sorting with it is numeric sorting, get_tag picks the deepest tag of a prefix chain and job names split back, for ALL tag components 0..99 (quick) / 0..999 (thorough) at depths 1..3 — the solver owns the values, so digit-length boundaries (9/10, 99/100) are covered without sampling.",
         "note": "CrossHair's model of str()/int()/split on z3 strings; sys.intern stubbed to identity for pathlib; step-name components from a fixed alphabet; components >= 1000 and depth > 3 (4 for get_tag) are outside the claim.",
